@@ -274,8 +274,8 @@ func (f *Formatter) formatTableProperties(props []*ast.TableProperty) string {
 			Leading:      f.formatComment(prop.Leading, "\n", 1),
 			Trailing:     f.trailing(prop.Trailing),
 			Operator:     ": ",
-			Key:          f.indent(1) + prop.Key.String(),
-			Value:        prop.Value.String(),
+			Key:          f.indent(1) + f.formatExpression(prop.Key).String(),
+			Value:        f.formatExpression(prop.Value).String(),
 			EndCharacter: ",",
 		}
 		lines = append(lines, line)
